@@ -236,7 +236,8 @@ def generate(cls, rng):
                                    ["decimal", rng.choice([28, 9, 6, 3]),
                                     rng.choice(["ROUND_HALF_EVEN",
                                                 "ROUND_DOWN",
-                                                "ROUND_UP"])]]))
+                                                "ROUND_UP"])],
+                                   ["intmax", rng.choice([0, 640, 4300])]]))
         elif r < 0.28 and ops and ops[-1][0] in ("fill", "zone", "fuzzy"):
             # the same call again, immediately: same text, same answer
             ops.append(list(ops[-1]))
@@ -452,6 +453,13 @@ def execute(cls, scenario, ctx):
                     c = decimal.getcontext()
                     c.prec = op[1]
                     c.rounding = getattr(decimal, op[2])
+                    env.config_events += 1
+                    ctx.event("world", op)
+                elif op[0] == "intmax":
+                    # the interpreter's int<->str digit limit
+                    import sys
+                    if hasattr(sys, "set_int_max_str_digits"):
+                        sys.set_int_max_str_digits(op[1])
                     env.config_events += 1
                     ctx.event("world", op)
                 elif op[0] == "fill":
